@@ -15,7 +15,7 @@ TSeq(q) == [i \in 1..Len(q) |-> <<q[i].s, q[i].c, q[i].r>>]
 RSeq(q) == [i \in 1..Len(q) |-> <<q[i].s, q[i].c, q[i].r, q[i].p>>]
 CSeq(q) == [i \in 1..Len(q) |-> <<q[i].s, q[i].c>>]
 Key == <<ch.lbest, ch.rbest, ch.fork, ch.full, rstored, seq, running, target, phase,
-         <<fd.st, fd.last, fd.lo, fd.hi, fd.mid, fd.lm, fd.full, fd.c0>>, anc,
+         <<fd.st, fd.last, fd.lo, fd.hi, fd.mid, fd.lm, fd.full, fd.c0, fd.ab>>, anc,
          <<f.hfSt, f.hfLast, f.hfCnt, f.hfSet, f.hfTO, TSeq(f.pend), TSeq(f.retry), RSeq(f.runq), f.free, f.fail, f.bad,
            f.got, f.bfAlive, f.bfBuf, CSeq(f.connq), <<f.cur.s, f.cur.c, f.cur.i>>, f.curBlk, f.prev, f.dlv>>,
          {<<r.k, r.a, r.b, r.c, r.d>> : r \in reqs},
